@@ -49,6 +49,7 @@ func runC15(s *Sim) {
 	}
 	// the silent peer also stops reading: writes block after the first ping it leaves unanswered
 	stopReading := mode == "dead" && silentAt > delay && t.Bool("silent-peer-stops-reading", 1, 3)
+	stopFirst := stopReading && t.Bool("stops-reading-before-the-next-ping", 1, 2)
 	first := true
 	s.Net.OnDial = func(l *Link) {
 		l.pongModel = true
@@ -57,6 +58,7 @@ func runC15(s *Sim) {
 			// the fault applies to the first connection; redials meet a healthy peer
 			l.pongDelay, l.pongSilentAt = delay, silentAt
 			l.stopReading = stopReading
+			l.stopReadingFirst = stopReading && stopFirst
 			first = false
 		}
 	}
@@ -163,7 +165,7 @@ func runC15(s *Sim) {
 		if t.Bool("broker-ping", 1, 8) {
 			for _, l := range y.aliveLinks() {
 				s.mu.Lock()
-				peerGone := l.stopReading && l.stalled // that peer neither reads nor writes any more
+				peerGone := l.stopReading && (l.stalled || (l.stopReadingFirst && l.pongSilentAt >= 0 && s.Now() >= l.pongSilentAt)) // that peer neither reads nor writes any more
 				s.mu.Unlock()
 				if l.bc != nil && l.bc.Connected && !peerGone {
 					if t.Bool("broker-ping-burst-behind-slow-link", 1, 3) {
